@@ -198,10 +198,17 @@ def run(ctx):
         ctx.check({"w", "d", "builder"} <= cov, "R02-merge", mg.key, mg, "merge asserts equal d, w and hasher before adding tables", "merge lacks a compatibility assert (covered: %s)" % sorted(cov))
         pem = PathEnumerator(mg, prog, ctx.summ)
         nm = sk = 0
+        # the sum may be written cell by cell in place (`for (a, b) in self.table.iter_mut().zip(&other.table) { *a = a + b }`): then
+        # "adds the tables" means the path runs that loop (to exhaustion, storing in every iteration: common.cellwise_merge)
+        from .common import cellwise_merge
+        cm_ = cellwise_merge(ctx, mg, "table")
+        inplace_heads = set(mg.loop_heads()) if cm_.get("form") == "in-place" and len(mg.loop_heads()) == 1 else set()
         for p in pem.paths():
             if p.exit_kind != "return":
                 continue
             nm += 1
+            if inplace_heads & set(p.blocks):
+                continue
             if not [e for e in p.events if e["kind"] == "write" and self_field(e) == "table" and e["how"] == "store"]:
                 sk += 1
         ctx.check(nm >= 1 and sk == 0, "R02-merge", mg.key + ":always-adds", mg, "every returning path of merge replaces the table by the cell-wise sum",
